@@ -93,6 +93,7 @@ struct _op {
       if (sync_complete.load(std::memory_order_acquire)) {
         return;
       }
+      UNIFEX_VERIF_YIELD("mutex.c.started");
 
       UNIFEX_VERIF_YIELD("race.c_started");
       if (auto state =
@@ -107,6 +108,7 @@ struct _op {
         // before destroying the stack-local.
         while (!sync_complete.load(std::memory_order_acquire)) {
           UNIFEX_VERIF_SPIN("race.c_spin");
+          UNIFEX_VERIF_SPIN("mutex.c.syncspin");
         }
       }
     }
@@ -128,6 +130,7 @@ struct _op {
   struct stop_callback {
     void operator()() noexcept {
       UNIFEX_VERIF_YIELD("race.c_stopped");
+      UNIFEX_VERIF_YIELD("mutex.c.stopped");
       if (auto state = op_->state_.fetch_or(stopped, std::memory_order_acq_rel);
           state == started /* neither stopped nor completed are set! */) {
         UNIFEX_VERIF_YIELD("race.c_cstop");
@@ -152,6 +155,7 @@ bool try_complete(NestedOp* self) noexcept {
       std::launder(reinterpret_cast<typename op::non_stop_type*>(self));
 
   UNIFEX_VERIF_YIELD("race.c_completed");
+  UNIFEX_VERIF_YIELD("mutex.c.completed");
   auto state =
       non_stop->state_.fetch_or(op::completed, std::memory_order_acq_rel);
 
@@ -171,6 +175,7 @@ bool try_complete(NestedOp* self) noexcept {
       // check (synchronous completion on the same thread) or via the
       // spin-wait after observing completed in fetch_or(started).
       UNIFEX_VERIF_YIELD("race.c_flag");
+      UNIFEX_VERIF_YIELD("mutex.c.flag");
       if (auto* flag = stop_self->sync_complete_) {
         flag->store(true, std::memory_order_release);
       }
@@ -209,6 +214,7 @@ struct _op<NestedOp>::type : _op<NestedOp>::stop_type {
   void start() noexcept {
     auto token{stop_.template get<StopToken>()};
     stop_.template destruct<StopToken>();
+    UNIFEX_VERIF_YIELD("mutex.c.reg");
     stop_.template construct<stop_callback_t>(token, op::stop_callback{this});
 
     this->cleanup_ = [](stop_type* self) noexcept {
@@ -217,6 +223,7 @@ struct _op<NestedOp>::type : _op<NestedOp>::stop_type {
 
     if constexpr (StopsEarly) {
       UNIFEX_VERIF_YIELD("race.c_early");
+      UNIFEX_VERIF_YIELD("mutex.c.early");
       if (this->state_.load(std::memory_order_acquire) & stopped) {
         this->nested_op().stop();
         return;
